@@ -443,7 +443,7 @@ def run_ok(case, d):
         by_len = {n: [l for l in lists if len(l) == n] for n in (1, 2, 3)}
         lists = [by_len[n][case['pick'] % len(by_len[n])] for n in (1, 2, 3)]
     probs, nt = [], []
-    nbytes = nhdr = closed = reports = 0
+    nbytes = nhdr = closed = reports = silent = 0
     sample = None
     for li, l in enumerate(lists):
         fields = [names[i] for i in l]
@@ -454,8 +454,9 @@ def run_ok(case, d):
         nhdr += len(fields)
         closed += bool(info.get('closed'))
         reports += bool(info.get('report'))
-        if mode != 'cli' and verbose and exc is None and not info.get('report'):
-            probs.append(dict(sig=f'ok:{mode}:no-report', msg=f'{_tag(case)}: verbose=True printed nothing on stderr'))
+        # diagnostics are not part of the property (they may go through logging, a different stream, or nowhere):
+        # only counted.  What matters - that they never end up in the pipe - is decided by the stream comparison.
+        silent += bool(mode != 'cli' and verbose and exc is None and not info.get('report'))
         if n > 12 * len(fields):
             nt.append((case['schema'], tuple(case['rows']), case['comp'], tuple(l)))
         if sample is None and case['rows'] == [4, 7] and case['comp'] == 'mix' and len(l) == 3 and 4 not in l:
@@ -479,7 +480,8 @@ def run_ok(case, d):
     extra = dict(labels)
     extra['evals_reordered_or_duplicated_files'] = ndup
     extra.update({f'evals_{mode}': len(lists), 'stream_bytes_compared': nbytes, 'field_headers_checked': nhdr,
-                  'files_written': len(fns), 'pipe_closed_by_callee': closed, 'stderr_reports_seen': reports})
+                  'files_written': len(fns), 'pipe_closed_by_callee': closed, 'stderr_reports_seen': reports,
+                  'verbose_calls_without_stderr_report': silent})
     return dict(problems=probs, evals=len(lists) + ndup, nt=nt, extra=extra, sample=sample,
                 max=dict(max_open_fds=len(os.listdir('/proc/self/fd'))))
 
